@@ -133,6 +133,13 @@ type target struct {
 	// different packages; StructGoName: record name -> the Go type's own name in the file named by StructsFrom
 	TypeAlias    map[string]string
 	StructGoName map[string]string
+	// OutParams: pointer parameters to scalars that the function writes through (`*p = v`): the translated function takes the value
+	// and returns, after its own results, the value the caller's variable holds when it returns
+	OutParams []string
+	// ErrSentinel: package-level error the file tests with errors.Is -> the gerr class standing for it IN THIS FILE
+	ErrSentinel map[string]string
+	// SynthStructs: records for types of other modules, declared here by the fields the file reads (integers only)
+	SynthStructs map[string][]string
 	// DropCalls: methods of the context receiver whose call statements are dropped (logging helpers)
 	DropCalls []string
 	// Imports: generated files this one builds on; ExternStructs: records declared there (parsed here for their fields, not emitted
@@ -158,6 +165,8 @@ type ctxCall struct {
 	Var    string
 	Params []ty
 	Rets   []ty
+	// NoArgs: the arguments only select configuration of the receiver (e.g. the configured block tag): the oracle takes none
+	NoArgs bool
 }
 
 var curIntTypes = map[string]bool{}
@@ -237,6 +246,21 @@ var targets = []target{
 		Extra: []extraSrc{{File: "agglayer/types/types.go", Alias: "agglayertypes",
 			Funcs: []string{"CertificateStatus.IsOpen", "CertificateStatus.IsClosed", "CertificateStatus.IsSettled", "CertificateStatus.IsInError"}}},
 		Funcs: []string{"initialStatus.getLatestAggLayerCert", "initialStatus.checkAgglayerConsistenceCerts", "initialStatus.process"}},
+	{File: "aggoracle/oracle.go", Out: "GenOracle.v",
+		Module: "aggoracle/oracle.go (getLastFinalizedGER, processLatestGER: one tick of the GER oracle)",
+		Hash: true, Ctx: "AggOracle", DropParams: []string{"ctx"}, OutParams: []string{"blockNumToFetch"},
+		ErrSentinel:  map[string]string{"ErrBlockNotProcessed": "ENotFound"},
+		SynthStructs: map[string][]string{"Header": {"Number"}},
+		Structs:      []string{"L1InfoTreeLeaf"},
+		StructsFrom:  map[string]string{"L1InfoTreeLeaf": "l1infotreesync/processor.go"},
+		StructFields: map[string][]string{"L1InfoTreeLeaf": {"GlobalExitRoot"}},
+		CtxCalls: map[string]ctxCall{
+			"l1Client.HeaderByNumber":        {Var: "headerByNumber", NoArgs: true, Rets: []ty{{k: kOpt, sub: []ty{{k: kStruct, name: "Header"}}}, {k: kErr}}},
+			"l1Info.GetLatestInfoUntilBlock": {Var: "getLatestInfoUntilBlock", Params: []ty{{k: kInt}}, Rets: []ty{{k: kOpt, sub: []ty{{k: kStruct, name: "L1InfoTreeLeaf"}}}, {k: kErr}}},
+			"chainSender.IsGERInjected":      {Var: "isGERInjected", Params: []ty{hashT}, Rets: []ty{{k: kBool}, {k: kErr}}},
+			"chainSender.InjectGER":          {Var: "injectGER", Params: []ty{hashT}, Rets: []ty{{k: kErr}}},
+		},
+		Funcs: []string{"AggOracle.getLastFinalizedGER", "AggOracle.processLatestGER"}},
 	{File: "aggsender/flows/flow_base.go", Out: "GenLimitCert.v",
 		Module: "aggsender/flows/flow_base.go (limitCertSize, getNewLocalExitRoot, verifyRetryCertStartingBlock), on top of Gen/GenBuildParams.v",
 		IntLit: true, Hash: true, Ctx: "baseFlow", Imports: []string{"Gen.GenBuildParams"}, DropParams: []string{"ctx"},
@@ -403,11 +427,13 @@ type env struct {
 	// fuel loop: its carried variables in order, and which of them are pointers (option) in the loop's signature
 	loopNames []string
 	loopPtr   map[string]bool
+	// out parameters (see target.OutParams), appended to every return
+	outs []string
 }
 
 func (e *env) clone() *env {
 	n := &env{vars: map[string]ty{}, recv: e.recv, rctx: e.rctx, flat: e.flat, rets: e.rets, named: e.named,
-		loopTup: e.loopTup, inLoop: e.inLoop, loopRet: e.loopRet, panicVar: e.panicVar, contCall: e.contCall, breakCode: e.breakCode, loopNames: e.loopNames, loopPtr: e.loopPtr}
+		loopTup: e.loopTup, inLoop: e.inLoop, loopRet: e.loopRet, panicVar: e.panicVar, contCall: e.contCall, breakCode: e.breakCode, loopNames: e.loopNames, loopPtr: e.loopPtr, outs: e.outs}
 	for k, v := range e.vars {
 		n.vars[k] = v
 	}
@@ -420,6 +446,55 @@ func (e *env) clone() *env {
 		n.wasPtr[k] = v
 	}
 	return n
+}
+
+func (t *tr) droppedParam(name string) bool {
+	for _, d := range t.tg.DropParams {
+		if d == name {
+			return true
+		}
+	}
+	return false
+}
+
+// derefOuts rewrites `*p` into `p` for the out parameters p of a function (reads and writes through the pointer become reads and
+// writes of a variable whose final value the translated function returns)
+func derefOuts(body ast.Node, outs map[string]bool) {
+	fix := func(e ast.Expr) ast.Expr {
+		if se, ok := e.(*ast.StarExpr); ok {
+			if id, ok := se.X.(*ast.Ident); ok && outs[id.Name] {
+				return id
+			}
+		}
+		return e
+	}
+	fixAll := func(es []ast.Expr) {
+		for i := range es {
+			es[i] = fix(es[i])
+		}
+	}
+	ast.Inspect(body, func(n ast.Node) bool {
+		switch v := n.(type) {
+		case *ast.AssignStmt:
+			fixAll(v.Lhs)
+			fixAll(v.Rhs)
+		case *ast.CallExpr:
+			fixAll(v.Args)
+		case *ast.ReturnStmt:
+			fixAll(v.Results)
+		case *ast.BinaryExpr:
+			v.X, v.Y = fix(v.X), fix(v.Y)
+		case *ast.UnaryExpr:
+			v.X = fix(v.X)
+		case *ast.ParenExpr:
+			v.X = fix(v.X)
+		case *ast.IfStmt:
+			v.Cond = fix(v.Cond)
+		case *ast.ExprStmt:
+			v.X = fix(v.X)
+		}
+		return true
+	})
 }
 
 func selChain(e ast.Expr) ([]string, bool) {
@@ -772,9 +847,15 @@ func (t *tr) call(v *ast.CallExpr, en *env) (string, ty) {
 		switch strings.Join(chain, ".") {
 		case "errors.Is": // errors.Is(err, db.ErrNotFound)
 			if len(v.Args) == 2 {
-				if tc, ok := selChain(v.Args[1]); ok && tc[len(tc)-1] == "ErrNotFound" {
-					a, _ := t.expr(v.Args[0], en)
-					return "(err_eqb " + a + " ENotFound)", ty{k: kBool}
+				if tc, ok := selChain(v.Args[1]); ok {
+					if cls, ok := t.tg.ErrSentinel[tc[len(tc)-1]]; ok {
+						a, _ := t.expr(v.Args[0], en)
+						return "(err_eqb " + a + " " + cls + ")", ty{k: kBool}
+					}
+					if tc[len(tc)-1] == "ErrNotFound" && len(t.tg.ErrSentinel) == 0 {
+						a, _ := t.expr(v.Args[0], en)
+						return "(err_eqb " + a + " ENotFound)", ty{k: kBool}
+					}
 				}
 			}
 			t.fail(v, "errors.Is with anything but db.ErrNotFound")
@@ -876,6 +957,9 @@ func (t *tr) call(v *ast.CallExpr, en *env) (string, ty) {
 		if ok { // a call through the context: an oracle
 			var args []string
 			for _, a := range v.Args {
+				if cc.NoArgs {
+					break
+				}
 				if aid, ok := a.(*ast.Ident); ok {
 					isDropped := false
 					for _, d := range t.tg.DropParams {
@@ -929,6 +1013,9 @@ func (t *tr) call(v *ast.CallExpr, en *env) (string, ty) {
 			fname = f.Sel.Name
 		} else {
 			xc, xt := t.expr(f.X, en)
+			if xt.k == kInt && xt.name == "" && f.Sel.Name == "Uint64" && len(v.Args) == 0 { // (*big.Int).Uint64() of a field modelled as N
+				return xc, xt
+			}
 			isOpt := false
 			if xt.k == kOpt && len(xt.sub) == 1 && xt.sub[0].k == kStruct {
 				xt, isOpt = xt.sub[0], true
@@ -954,6 +1041,9 @@ func (t *tr) call(v *ast.CallExpr, en *env) (string, ty) {
 		return "?", ty{k: kUnknown}
 	}
 	for _, a := range v.Args {
+		if aid, ok := a.(*ast.Ident); ok && t.droppedParam(aid.Name) {
+			continue
+		}
 		c, _ := t.expr(a, en)
 		args = append(args, c)
 	}
@@ -1667,6 +1757,7 @@ func (t *tr) block(list []ast.Stmt, en *env, tail string, ind string) string {
 			}
 			parts = append(parts, c)
 		}
+		parts = append(parts, en.outs...)
 		res := "(" + strings.Join(parts, ", ") + ")"
 		if len(parts) == 1 {
 			res = parts[0]
@@ -2505,6 +2596,21 @@ func (t *tr) run() string {
 		}
 	}
 	// records
+	var synth []string
+	for name := range t.tg.SynthStructs {
+		synth = append(synth, name)
+	}
+	sort.Strings(synth)
+	for _, name := range synth { // a type of another module, by the integer fields this file reads
+		sd := &structDef{name: name}
+		t.structs[name] = sd
+		var fs []string
+		for _, f := range t.tg.SynthStructs[name] {
+			sd.fields = append(sd.fields, field{f, ty{k: kInt}})
+			fs = append(fs, fmt.Sprintf("%s_%s : N", name, f))
+		}
+		fmt.Fprintf(&o, "Record %s := mk%s { %s }.\n", name, name, strings.Join(fs, "; "))
+	}
 	for _, name := range t.tg.Structs {
 		goName := name
 		if g, ok := t.tg.StructGoName[name]; ok {
@@ -2626,9 +2732,24 @@ func (t *tr) run() string {
 				}
 			}
 		}
+		outSet := map[string]bool{}
 		for _, p := range fd.Type.Params.List {
 			pt := goType(p.Type, t.structs)
 			for _, n := range p.Names {
+				isOut := false
+				for _, o := range t.tg.OutParams {
+					if o == n.Name {
+						isOut = true
+					}
+				}
+				if st, ok := p.Type.(*ast.StarExpr); ok && isOut {
+					ot := goType(st.X, t.structs)
+					en.vars[n.Name] = ot
+					en.outs = append(en.outs, n.Name)
+					outSet[n.Name] = true
+					params = append(params, fmt.Sprintf("(%s : %s)", n.Name, ot.coq()))
+					continue
+				}
 				isDropped := false
 				for _, d := range t.tg.DropParams {
 					if d == n.Name {
@@ -2678,6 +2799,12 @@ func (t *tr) run() string {
 					prologue += "let " + nm.Name + " := " + zero(rt) + " in\n  "
 				}
 			}
+		}
+		for _, o := range en.outs {
+			rts = append(rts, en.vars[o])
+		}
+		if len(outSet) > 0 {
+			derefOuts(fd.Body, outSet)
 		}
 		en.rets = rts
 		en.panicVar = "panic_" + t.funcName(recvType, fd.Name.Name)
